@@ -220,14 +220,17 @@ def r2(ctx, r):
         r.expect(m == want, g[0] if g else WF, None, "byte order: %s" % nm, "BufferView::%s combines bytes as %s (big-endian is %s)" % (nm, m, want), okdesc="%s is big-endian" % nm)
     # encoder thresholds and codes
     thr = {}
+    size_alias = {v["n"] for x in s.stmts() if x.node.get("k") == "decl" for v in x.node["vars"] if v.get("init") is not None and show(strip_casts(v["init"])) in ("payload.size()", "this->payload.size()")}
     for b in s.blocks.values():
         cp = common.cmp_parts(b.cond) if b.cond is not None else None
-        if cp and cp[0] in ("<=", "<") and "payload.size()" in show(cp[1]) and const_value(cp[2]) is not None:
+        if cp and cp[0] in ("<=", "<") and ("payload.size()" in show(cp[1]) or key_of(cp[1]) in size_alias) and const_value(cp[2]) is not None:
             limit = const_value(cp[2]) - (1 if cp[0] == "<" else 0)
             arm = s.blocks[b.succs[0]].elems
             code = [const_value(strip_casts(x.node["rhs"])) for x in arm if x.kind == "stmt" and x.node.get("k") == "bin" and x.node.get("op") == "|=" and key_of(x.node["lhs"]) == "byte1" and const_value(strip_casts(x.node["rhs"])) is not None]
             pushes = [x for x in arm if x.kind == "stmt" and x.node.get("k") == "mcall" and last(x.node.get("callee", "")) == "push_back"]
             thr[limit] = (code[0] if code else None, len(pushes))
+    if not thr:
+        raise AnalysisBroken("serialize: no comparison of the payload size with a constant found (length-form selection has another shape)")
     r.instance()
     r.expect(set(thr) == {125, 0xFFFF} and thr.get(125, (1,))[0] is None and thr.get(0xFFFF, (None,))[0] == 126, s, None, "encoder thresholds", "serialize chooses the length form with thresholds/codes %s (expected <=125 inline, <=0xFFFF code 126, else 127)" % thr,
              okdesc="<=125 inline; <=0xFFFF → 126; else 127")
@@ -241,7 +244,7 @@ def r2(ctx, r):
     if len(b16) == 1:
         sh = []
         for x in b16[0].elems:
-            if x.kind == "stmt" and x.node.get("k") == "mcall" and last(x.node.get("callee", "")) == "push_back" and "root" in x.raw and "payload.size()" in show(x.node):
+            if x.kind == "stmt" and x.node.get("k") == "mcall" and last(x.node.get("callee", "")) == "push_back" and "root" in x.raw and ("payload.size()" in show(x.node) or any(y.get("k") == "var" and y["n"] in size_alias for y in walk(x.node))):
                 sx = [const_value(strip_casts(y["rhs"])) for y in walk(x.node) if y.get("k") == "bin" and y.get("op") == ">>"]
                 sh.append(sx[0] if sx else 0)
         ok = sh == [8, 0]
@@ -306,7 +309,20 @@ def limit_blocks(f, limit_words):
             if x.get("k") == "var":
                 qty.add(x["n"])
     more = [b for b in f.blocks.values() if b.cond is not None and b not in core and common.cmp_parts(b.cond) and any(x.get("k") == "var" and x["n"] in qty for x in walk(b.cond))]
-    return core + more
+    # a bool local assigned from a limit comparison, tested later
+    flags = set()
+    for e in f.stmts():
+        cands = []
+        if e.node.get("k") == "decl":
+            cands = [(v["n"], v["init"]) for v in e.node["vars"] if v.get("init") is not None]
+        a = asg(e.node)
+        if a and key_of(a[0]):
+            cands.append((key_of(a[0]), a[1]))
+        for (nme, rhs) in cands:
+            if any(common.cmp_parts(x) and common.cmp_parts(x)[0] in (">", ">=") and any(w in show(x) for w in limit_words) for x in walk(rhs)):
+                flags.add(nme)
+    fl = [b for b in f.blocks.values() if b.cond is not None and b not in core and b not in more and any(x.get("k") == "var" and x["n"] in flags for x in walk(b.cond))]
+    return core + more + fl
 
 
 def r3(ctx, r):
@@ -336,6 +352,76 @@ def r3(ctx, r):
             r.expect(w is None or behind, f, e, "unbounded buffer: %s" % label, "%s grows the %s (`%s`) and can return without the accumulated size having been compared with the configured maximum: a peer that keeps sending "
                      "(an endless header, endless CONTINUATION frames, a frame that never completes) makes the endpoint buffer without bound" % (short(f.name), label, show(e.node)[:60]), witness=witness_str(f, w),
                      okdesc="%s: `%s` followed by a limit test" % (last(f.name), show(e.node)[:40]))
+    # the receive-buffer bound is applied to the UNPARSED REMAINDER (one incomplete frame), never to bytes that may still contain
+    # complete frames: the compared quantity is `size - offset` taken after the parse loop
+    for (f, label) in ((fnc(ctx, WS, "onUpgradedData", WSF), "server"), (fnc(ctx, WC, "handleData", WCF), "client")):
+        ps = [e for e in f.stmts() if e.node.get("k") in ("call", "mcall") and last(e.node.get("callee", "")) == "parse" and "WebSocketFrame" in e.node.get("callee", "")]
+        cmps = []
+        for e in f.stmts():
+            if "root" not in e.raw:
+                continue
+            for x in walk(e.node):
+                cp = common.cmp_parts(x)
+                if cp and cp[0] in (">", ">=") and any(w_ in show(cp[2]) for w_ in ("_maxFrameSize", "maxFrameSize")) and "Upgrade" not in show(x):
+                    cmps.append((e, x))
+        for b_ in f.blocks.values():
+            if b_.cond is not None:
+                for x in walk(b_.cond):
+                    cp = common.cmp_parts(x)
+                    if cp and cp[0] in (">", ">=") and any(w_ in show(cp[2]) for w_ in ("_maxFrameSize", "maxFrameSize")) and "Upgrade" not in show(x) and not any(x is y for _, y in cmps):
+                        cmps.append((b_.elems[-1] if b_.elems else None, x))
+        r.instance()
+        if not ps or not cmps:
+            raise AnalysisBroken("%s: parse call / frame-size limit comparison not found" % last(f.name))
+        ok, why, where = True, "", None
+        for (e, x) in cmps:
+            lhs = common.cmp_parts(x)[1]
+            q = [y["n"] for y in walk(lhs) if y.get("k") == "var"]
+            direct = [y for y in walk(lhs) if y.get("k") == "mcall" and last(y.get("callee", "")) == "size"]
+            if direct:
+                ok, why, where = False, "it compares `%s` — the size of the whole buffer" % show(lhs)[:50], e
+                break
+            qd = [(d, v) for d in f.stmts() if d.node.get("k") == "decl" for v in d.node["vars"] if q and v["n"] == q[0]]
+            if len(qd) != 1 or qd[0][1].get("init") is None:
+                raise AnalysisBroken("%s: the quantity compared with the frame-size limit (`%s`) is not a single initialised local" % (last(f.name), show(lhs)[:40]))
+            i = strip_casts(qd[0][1]["init"])
+            if not (i.get("k") == "bin" and i.get("op") == "-" and "size()" in show(i["lhs"]) and key_of(i["rhs"]) == "offset"):
+                ok, why, where = False, "`%s` is `%s`, not the size of the unparsed remainder (size() - offset)" % (q[0], show(i)[:50]), e
+                break
+            if search(f, qd[0][0], lambda y: y is ps[0], eh=False) is not None:
+                ok, why, where = False, "`%s` is computed before the parse loop has consumed the complete frames" % q[0], e
+                break
+        r.expect(ok, f, where, "%s oversize bound on parsed bytes" % label, "%s compares the frame-size limit with a quantity that can include complete frames (%s): a valid stream whose frames "
+                 "arrive coalesced in one read is closed with 1009 although every frame is within the limit — delivery depends on how the stream was cut into reads" % (last(f.name), why),
+                 okdesc="%s: limit applied to the unparsed remainder after parsing" % label)
+    # per-session state is released when the transport reports the connection closed (no CLOSE frame needed)
+    fb = ctx.fb()
+    HSrv, HSFile = "iora::network::HttpServer", "iora/network/http_server.hpp"
+    starts = [g for g in fb.funcs(HSrv + "::start", HSFile) if g.ok]
+    hook_calls, lam_fn = [], None
+    for g in starts:
+        for (ln, lf) in g.lambdas:
+            par = g.nodes.get(g.parent.get(ln.get("id")))
+            hops = 0
+            while par is not None and par.get("k") not in ("mcall", "call") and hops < 6:
+                par = g.nodes.get(g.parent.get(par.get("id")))
+                hops += 1
+            if par is not None and par.get("k") == "mcall" and last(par.get("callee", "")) == "onClose" and "Transport" in par.get("callee", "") and lf.ok:
+                lam_fn = lf
+                hook_calls = [e for e in lf.stmts() if e.node.get("k") == "mcall" and e.node.get("virt") and (e.node.get("callee") or "").startswith(HSrv + "::")]
+    r.instance()
+    if lam_fn is None:
+        raise AnalysisBroken("HttpServer::start: transport onClose callback not found")
+    overrides = [g for g in fb.methods_of(WS) if g.ok and hook_calls and last(g.name) == last(hook_calls[0].node["callee"])]
+    okh = len(hook_calls) == 1 and len(overrides) == 1
+    if okh:
+        la = ctx.locks()
+        ov = overrides[0]
+        er = [e for e in ov.stmts() if e.node.get("k") == "mcall" and last(e.node.get("callee", "")) == "erase" and field_of(strip_casts(e.node.get("obj"))) == WS + "::_sessions"]
+        okh = len(er) == 1 and la.holds(ov, er[0], WSM) and not la.mutexes(lam_fn, hook_calls[0])
+    r.expect(okh, lam_fn, hook_calls[0] if hook_calls else None, "session state kept after the connection closed", "when the transport reports an upgraded connection closed, nothing tells WebSocketServer: its per-session state "
+             "(receive and fragment buffers, up to maxFrameSize each) stays forever and the application never sees onClose — a peer that connects, sends most of a large frame and drops the connection grows server memory without bound",
+             okdesc="transport close → virtual hook (no lock held) → WebSocketServer erases _sessions[sid] under _wsMutex")
     # the overflow reaction ends the session / discards the state
     for (f, label, flag) in ((fnc(ctx, WS, "handleDataFrame", WSF), "server fragment buffer", "tooLarge"), (fnc(ctx, WC, "handleDataFrame", WCF), "client fragment buffer", "tooLarge")):
         flags = [v for e in f.stmts() if e.node.get("k") == "decl" for v in e.node["vars"] if v["n"] == flag]
